@@ -1,13 +1,14 @@
 """C12 — Docstring parsers are total and terminating on arbitrary text.
 
-(C) model g_parse / n_parse / s_parse (control flow over line features)  vs  Docstring(text, parent).parse(style, **options)
-(O) model cleandoc_post                                                  vs  inspect.cleandoc as used by Docstring.__init__
-direct property evaluation on the implementation: no exception, terminates (2 s watchdog), every section well-formed
-(as_dict works, value of the right shape), docstring and parent unmodified, plain text => a single text section.
-
-The line-feature extractor below is this harness's own re-implementation of the string tests and regular
-expressions of the three parsers; nothing is imported from Griffe for it, so a changed regex or keyword table
-in /repo shows up as a correspondence failure.
+(T) harness/translate/c12_regexes.py: every regex of the parsers -> regex ASTs (coq/Gen/C12_regexes.v), keyword tables
+    (coq/Gen/C12_tables.v); fail closed.  The Coq side decides the polynomial-matching criterion on the ASTs.
+(C) model (characters -> line features -> control flow -> items)  vs  Docstring(text, parent).parse(style, **options):
+    section kinds, titles, texts, admonitions, item names / annotation sources / descriptions, Examples sub-sections,
+    Sphinx parameters / attributes / return / exceptions.
+(O) model regex matcher vs CPython's re on every regex; model-computed line features vs CPython str/re;
+    model cleandoc_post vs inspect.cleandoc as used by Docstring.__init__.
+direct property evaluation on the implementation: no exception, terminates (2 s watchdog; adversarial inputs in a child
+interpreter), every section well-formed, docstring and parent unmodified, plain text => a single text section.
 """
 from __future__ import annotations
 
@@ -24,38 +25,63 @@ import time
 
 ID = "C12"
 LEVEL_TEXT = ("Theorems over all line sequences, all option combinations and all parents: the Google, Numpy and Sphinx main loops "
-              "terminate within len(lines)+1 iterations (each block reader returns at least offset-1), no lines[i] lookup fails "
-              "(Google and Sphinx unconditionally, Numpy under the cleandoc post-condition of Docstring.__init__, which is shown to be necessary), "
-              "produced sections are well-formed (indices in range, no empty item list, Sphinx text first), and text without section syntax "
-              "gives exactly one text section made of all lines in order (Numpy: blank lines emptied; Sphinx: leading blank lines dropped). "
-              "The model is tied to the code by differential runs comparing section kinds, item counts, titles and the exact text/admonition "
-              "contents reconstructed from the model's line indices; the property is also evaluated directly on the implementation for every case.")
-LEVEL_NOTE = ("Trusted: Coq kernel, extraction, the harness feature extractor (its own copies of the regexes and keyword tables), CPython's str/re. "
-              "Modelled, not verified: character-level item parsing (names, annotations, descriptions, doctest trimming, annotation "
-              "compilation) is outside the model and only exercised by the direct evaluation; Examples sub-sections are not modelled "
-              "(presence only); Sphinx parameter/attribute counts are an upper bound in the model (duplicate names need character data). "
-              "Totality of that item-level code rests on the direct evaluation alone: it found eight crash families there (annotation "
-              "compilation, attribute look-ups on the parent, tuple indexing into the parent's annotation, the expression builder's error path), "
-              "all repaired by fix: commits and kept as must-pass corpus cases. "
-              "No known finding is left: C12-F1 (Numpy returned no section for the empty docstring) is repaired as well.")
+              "terminate within len(lines)+1 iterations, every iteration moves the cursor strictly forward (each block reader returns at "
+              "least offset-1), no lines[i] lookup fails (Google and Sphinx unconditionally, Numpy under the cleandoc post-condition of "
+              "Docstring.__init__, which is shown to be necessary), produced sections are well-formed, and text without section syntax "
+              "gives exactly one text section made of all lines in order. "
+              "Character level: the model now starts from the characters of the lines. The 15 line features are computed inside Coq "
+              "with a model regex matcher run on the regex ASTs regenerated from /repo on every run and with the regenerated keyword "
+              "tables; the items of every section (block slicing, colon splits, the Returns / Numpy parameter / returns / default "
+              "regexes, Examples sub-sections with the doctest regexes, Sphinx field parsing with its duplicate and type-field "
+              "bookkeeping) are parsed in the model, and the Google and Numpy parses are proved total at that level (no item look-up "
+              "fails) for every list of lines of characters. "
+              "Regex termination: the matcher is a fuel-free backtracking matcher (its quantifier counter is proved not to cut "
+              "anything off); under criterion A1 (every unbounded quantifier repeats one character matcher) its step count is "
+              "proved to be at most bound r n K <= coef(r)*(n+1)^stars(r)*(K+1) for match, and (n+1) times that for search/sub; every "
+              "regex found in the three parsers is proved (by computation on the regenerated ASTs) to meet criterion A2 = A1 or a "
+              "delimited deterministic iteration, all but numpy._RE_PARAMETER meeting A1 itself. "
+              "Ties: translator (fail closed), differential runs comparing section kinds, titles, texts, item names / annotation "
+              "sources / descriptions and Sphinx field values with Docstring.parse, an oracle stream comparing the model matcher with "
+              "CPython's re on every regex, the model-computed line features with CPython's str/re, and adversarial inputs "
+              "generated from the regex ASTs run in a child interpreter under a per-case watchdog.")
+LEVEL_NOTE = ("Trusted: Coq kernel, extraction, CPython's re._parser as front end of the regex translator (the parse tree of the engine that "
+              "runs the pattern), CPython's str methods for the fields of non-ASCII characters (word / space / decimal / lower / "
+              "case-insensitive ASCII letter), the reconstruction of text sections from line indices. "
+              "Partial: for the delimited iteration of numpy._RE_PARAMETER (criterion A2) the step bound is not proved, the criterion is "
+              "only decided; the adversarial stream and the watchdog cover it. "
+              "Not modelled: parse_docstring_annotation / compile and the expression builder (annotation sources are compared, their "
+              "compilation is exercised by the direct evaluation only), textwrap.dedent of Numpy descriptions (descriptions of "
+              "Numpy items other than parameters are not compared), look-ups on the parent beyond 'is there an annotation' "
+              "(abstracted by the harness into name lists), docstring_warning. "
+              "Totality of that remaining code rests on the direct evaluation: it found eight crash families there earlier, all "
+              "repaired by fix: commits and kept as must-pass corpus cases. No known finding is left.")
 MODEL = ("Model.C12_run", "run_C12x")
 MODEL_TARGETS = ["Model/C12_run.vo"]
 COQ_TARGETS = ["Proofs/C12_docstrings.vo", "Proofs/C12_regex.vo", "Proofs/C12_chars.vo"]
 RULE = ("texts of <=12 lines (some longer) assembled from section keywords, separators, indentation levels, item syntaxes and prose: "
         "(a) exhaustive sequences of <=3 line classes (thorough: <=4) from a 13-letter alphabet per style, (b) seeded random fragment sequences, "
         "(c) structured mostly-valid docstrings per style with seeded perturbations (dropped blank lines, shifted indents), "
-        "(d) a malformed stream (tabs, CR, FF, NUL, non-ASCII spaces and letters, very deep indentation, very long lines); "
+        "(d) a malformed stream (tabs, CR, FF, NUL, non-ASCII spaces and letters, very deep indentation, very long lines), "
+        "(e) adversarial docstrings derived from the regex ASTs of the tree under test: for every unbounded quantifier of every regex the "
+        "shortest text reaching it, a run (30..5000) of its body word or of a character of each class in its body, and a suffix on "
+        "which the rest fails, placed in every role (item, annotation, description, continuation, doctest line, plain line) of every "
+        "reader; run in a child interpreter under a per-case watchdog and narrowed down to one role when they fail, "
+        "(f) regex oracle: random words of each regex, damaged words, generator lines -> model matcher vs CPython re; "
         "x parser options: all 2^8/2^3/2^1 combinations on a rotating subset, random combinations elsewhere; x eleven parents "
         "(None, Module, Class.__init__ Function, Function, property Attribute, Function returning None, a visited module with unresolvable and "
         "cyclic alias members, and visited functions/property whose return annotations are real tuple / Generator / Iterator expressions). "
         "non-trivial = the model yields something other than a single text section; distinct by (style, options, parent, text)")
-TRUSTED = ["abstraction: harness/props/c12.py:features maps each line of Docstring.lines to 15 integers using Python's str methods and "
-           "this file's own copies of _RE_ADMONITION, _RE_PARAMETER, the _section_kind tables and the Sphinx field-name sets",
+TRUSTED = ["translator front end: CPython's re._parser.parse gives the parse tree that harness/translate/c12_regexes.py transliterates into "
+           "the regex AST (every opcode outside the AST is refused)",
+           "characters: the model computes the fields of ASCII characters itself (and rejects inconsistent ones); for the others the harness "
+           "supplies str.isalnum/isspace/isdecimal/lower and the case-insensitive ASCII letter found with re.IGNORECASE",
+           "oracle side of the feature check: harness/props/c12.py:features evaluates the translated patterns and tables with CPython's re/str",
            "reconstruction: expected text/admonition contents are rebuilt from the model's line indices with str.join/rstrip/lstrip"]
 ASSUMPTIONS = ["docstrings are built with the Docstring constructor (value = inspect.cleandoc(text.rstrip())); the cleandoc post-condition "
-               "is a hypothesis of the Numpy totality theorem and is checked on every generated text",
+               "is a hypothesis of the Numpy totality theorems and is checked on every generated text",
                "ignore_init_summary on a Class.__init__ docstring drops the first two lines by design; the plain-text theorems state this offset explicitly",
-               "character-level parsing of items is C13's subject; here items are counted"]
+               "the watchdog (2 s in the child, 8 s before it is killed) separates polynomial from exponential matching for subjects up to "
+               "5000 characters: the quadratic doctest-flag substitution needs 0.2 s on 8000 blanks"]
 
 # ---------------------------------------------------------------- own copies of the parsers' tables and regexes
 KINDS = ["parameters", "other parameters", "raises", "warns", "examples", "attributes", "functions", "classes", "modules",
